@@ -2066,7 +2066,7 @@ class _GroupElem(ABC):
             # plain array: a (dim, dim) slice of a FeArray is still typed FeArray and would be
             # re-read as an (Ne, nPg) field when the number of query points equals dim
             invF_e_pg = np.asarray(self.Get_invF_e_pg(matrixType))
-            dN_tild = self._dN()
+            N_tild = self._N()
             xiOrigin = self.origin  # origin of the reference element (ξ0,η0)
 
             # Check whether iterative resolution is required
@@ -2125,16 +2125,19 @@ class _GroupElem(ABC):
 
                 else:
                     # This is the most time-consuming method.
-                    # We need to construct the Jacobian matrices here.
+                    # The isoparametric map x(ξ) = Σ N_i(ξ) x_i is inverted numerically.
                     def Eval(xi: _types.FloatArray, xP: _types.FloatArray):
-                        dN = _GroupElem._Eval_Functions(dN_tild, xi.reshape(1, -1))
-                        F = dN[0] @ coordElemBase[:, :dim]  # jacobian matrix [J]
-                        J = x0 + (xi - xiOrigin) @ F - xP  # cost function
+                        N = _GroupElem._Eval_Functions(N_tild, xi.reshape(1, -1))
+                        J = N[0, 0] @ coordElemBase[:, :dim] - xP  # cost function
                         return J
 
                     xiP = []
                     for xP in xP_n:
-                        res = least_squares(Eval, 0 * xP, args=(xP,))
+                        # start from the affine estimate built on the first integration point
+                        xi0 = xiOrigin + (xP - x0) @ invF_e_pg[e, 0]
+                        res = least_squares(
+                            Eval, xi0, args=(xP,), xtol=1e-14, ftol=1e-14, gtol=1e-14
+                        )
                         xiP.append(res.x)
 
                 # xiP are the n coordinates of the n points in (ξ, η, ζ).
